@@ -12,7 +12,8 @@ database:
   (3) short-form derivation (structural): the short extractors are exactly the regexes obtained from a full
       extractor by inserting 'at ' before the page group, with the same editions;
   (4) class wiring (E2): _extract_full_citation picks the citation class from the edition sources
-      (reporters > laws > journals) and passes on the token's groups and editions;
+      (reporters > laws > journals) and passes on the token's groups and editions; _extract_shortform_citation
+      passes on the token's groups and both candidate-edition tuples;
   (5) exact captures on short contexts (E2 + symbolic matcher): for every documented trailing pin-cite
       context  [,][ ][at ]D+ T  with D+ one or two arbitrary digits and T a documented terminator, followed
       by <= 1 arbitrary character, POST_SHORT_CITATION_REGEX / POST_FULL_CITATION_REGEX capture exactly the
@@ -461,6 +462,15 @@ class HWire(common.Harness):
         self.F, self.M = F, M
         for cls in (M.FullCaseCitation, M.FullLawCitation, M.FullJournalCitation):
             self.interp.stubs[cls.add_metadata] = lambda slf, words: None
+        # short form: no antecedent, no pin cite (those are C02's harnesses); what is decided here is which
+        # candidate editions and groups reach the citation object
+        import eyecite.helpers as Hh
+
+        self.interp.stubs[F.match_on_tokens] = lambda *a, **k: None
+        self.interp.stubs[Hh.match_on_tokens] = lambda *a, **k: None
+        self.interp.stubs[F.extract_pin_cite] = lambda *a, **k: (None, None, None)
+        self.interp.stubs[M.ShortCaseCitation.add_metadata] = lambda slf, words: None
+        self.interp.stubs[M.ResourceCitation.guess_edition] = lambda slf: None
 
     def run(self):
         M, eng = self.M, self.eng
@@ -471,10 +481,14 @@ class HWire(common.Harness):
         self.ex, self.va = ex, va
         tok = M.CitationToken("1 X 2", 3, 8, groups={"volume": "1", "reporter": "X", "page": "2"}, exact_editions=tuple(mk(s, 0) for s in ex), variation_editions=tuple(mk(s, 1) for s in va))
         self.tok = tok
+        self.short = bool(ex or va) and "reporters" in (ex or va) and eng.choose([z3.Bool("short_form"), z3.Not(z3.Bool("short_form"))]) == 0
+        if self.short:
+            tok.short = True
+            return self.interp.call(self.F._extract_shortform_citation, ([tok], 0), {})
         return self.interp.call(self.F._extract_full_citation, ([tok], 0), {})
 
     def witness(self, m):
-        return {"exact_sources": self.ex, "variation_sources": self.va}
+        return {"exact_sources": self.ex, "variation_sources": self.va, "short_form": getattr(self, "short", False)}
 
     def describe(self, kind, out):
         return self.witness(None)
@@ -486,7 +500,9 @@ class HWire(common.Harness):
             ok = isinstance(out, ValueError) and not srcs
             return [self.check("C01:wiring:class_follows_edition_sources", z3.BoolVal(ok), self.witness)]
         want = M.FullCaseCitation if "reporters" in srcs else M.FullLawCitation if "laws" in srcs else M.FullJournalCitation if "journals" in srcs else None
-        ok = want is not None and type(out) is want and out.groups == self.tok.groups and tuple(out.exact_editions) == tuple(self.tok.exact_editions) and tuple(out.variation_editions) == tuple(self.tok.variation_editions) and out.span() == (3, 8)
+        if getattr(self, "short", False):
+            want = M.ShortCaseCitation
+        ok = want is not None and type(out) is want and out.groups == self.tok.groups and tuple(out.exact_editions) == tuple(self.tok.exact_editions) and tuple(out.variation_editions) == tuple(self.tok.variation_editions) and (getattr(self, "short", False) or out.span() == (3, 8))
         return [self.check("C01:wiring:class_follows_edition_sources", z3.BoolVal(bool(ok)), self.witness)]
 
 
@@ -652,7 +668,11 @@ def check(rep):
         w = f["witness"]
         rep.replays += 1
         if name == "wire":
-            rep.violation(f"_extract_full_citation with edition sources {w}: wrong class or lost groups", {"kind": "wire", "witness": w})
+            if not replay_wire(w):
+                rep.spurious += 1
+                rep.inconc(f"class-wiring model {w} did not reproduce natively")
+                continue
+            rep.violation(f"{'_extract_shortform_citation' if w.get('short_form') else '_extract_full_citation'} with edition sources {w}: wrong class, or groups / candidate editions of the token lost", {"kind": "wire", "witness": w})
             continue
         if name.startswith("actx:") and not f["clause"].endswith("agrees_with_regex_engine"):
             got = actx_real(name[5:], w["context"])
@@ -696,6 +716,31 @@ def check(rep):
     )
 
 
+def replay_wire(w):
+    """the wiring clause on CPython: real token, real _extract_full_citation / _extract_shortform_citation."""
+    import logging
+
+    import eyecite.find as F
+    import eyecite.models as M
+
+    mk = lambda s_, i: M.Edition(M.Reporter(f"R{s_}{i}", "n", "state", s_), f"E{s_}{i}", None, None)
+    ex, va = w["exact_sources"], w["variation_sources"]
+    tok = M.CitationToken("1 X 2", 3, 8, groups={"volume": "1", "reporter": "X", "page": "2"}, exact_editions=tuple(mk(s_, 0) for s_ in ex), variation_editions=tuple(mk(s_, 1) for s_ in va), short=bool(w.get("short_form")))
+    srcs = ex or va
+    logging.disable(logging.WARNING)
+    try:
+        out = (F._extract_shortform_citation if w.get("short_form") else F._extract_full_citation)([tok], 0)
+    except ValueError:
+        return bool(srcs)
+    except Exception:
+        return True
+    finally:
+        logging.disable(logging.NOTSET)
+    want = M.ShortCaseCitation if w.get("short_form") else M.FullCaseCitation if "reporters" in srcs else M.FullLawCitation if "laws" in srcs else M.FullJournalCitation if "journals" in srcs else None
+    ok = want is not None and type(out) is want and out.groups == tok.groups and tuple(out.exact_editions) == tuple(tok.exact_editions) and tuple(out.variation_editions) == tuple(tok.variation_editions)
+    return not ok
+
+
 def actx_real(name, text):
     import regex
 
@@ -731,6 +776,10 @@ def replay_file(path):
         ok = re.compile(r["regex"], r["flags"]).search(r["text"]) is not None
         print(ok)
         return 0 if ok else 1
+    if r["kind"] == "wire":
+        bad = replay_wire(r["witness"])
+        print("violated" if bad else "holds")
+        return 1 if bad else 0
     if r["kind"] == "actx":
         got = actx_real(r["pattern"], r["context"])
         print(got, r["want"])
